@@ -228,7 +228,7 @@ const (
 		"||||||||||k|||||||||||||||||||||" + // 0x00
 		"|||c||||||||||||||||||||||||||||" + // 0x20
 		"||||||||||||||||||||||||||||||||" + // 0x40
-		"||||||||||||||||||||||||||||||||" + // 0x60
+		"||||||||||||||||||||||||||||a|||" + // 0x60
 		"||||||||||||||||||||||||||||||||" + // 0x80
 		"||||||||||||||||||||||||||||||||" + // 0xa0
 		"||||||||||||||||||||||||||||||||" + // 0xc0
